@@ -22,6 +22,10 @@ func (g *G) Bool(label string) bool          { return rapid.Bool().Draw(g.T, lab
 // Chance is true with probability pct/100.
 func (g *G) Chance(pct int, label string) bool { return g.Int(0, 99, label) < pct }
 
+func (g *G) Pick2(xs []int, label string) int {
+	return xs[rapid.IntRange(0, len(xs)-1).Draw(g.T, label)]
+}
+
 func (g *G) PickArgs(xs [][]string, label string) []string {
 	return xs[rapid.IntRange(0, len(xs)-1).Draw(g.T, label)]
 }
@@ -58,7 +62,7 @@ var (
 	// IgnoreDirs / IgnoreExts are what a generated .goitignore may contain. Extensions are never
 	// used in directory names, so "ignored" is unambiguous in the generated domain.
 	IgnoreDirs = []string{"build", "lib-old", "test.c"}
-	IgnoreExts = []string{".log", ".tmp"}
+	IgnoreExts = []string{".log", ".tmp", ".tmpx", ".c++"}
 )
 
 // openNameExclusions: characters excluded from names while a finding is open.
@@ -125,6 +129,11 @@ func (g *G) IgnoreFile() []byte {
 	if len(lines) == 0 {
 		lines = []string{"build/"}
 	}
+	// the order of the entries is drawn too (a rule must not depend on its position)
+	for i := len(lines) - 1; i > 0; i-- {
+		j := g.Int(0, i, "shuffle")
+		lines[i], lines[j] = lines[j], lines[i]
+	}
 	return []byte(strings.Join(lines, "\n") + "\n")
 }
 
@@ -181,12 +190,24 @@ func (g *G) knownDirs() []string {
 	return out
 }
 
-// hasIgnorableExtInDir: a directory component carries an ignorable extension (kept out of the domain).
+// hasIgnorableExtInDir: an ignorable extension occurs where "ignored" would be ambiguous: in a directory
+// component, or inside a file name without being its end ("d.tmp.c"). Such names are kept out of the domain.
 func hasIgnorableExtInDir(p string) bool {
 	parts := strings.Split(p, "/")
-	for _, c := range parts[:len(parts)-1] {
+	for i, c := range parts {
+		stem := c
+		if i == len(parts)-1 {
+			// a file name may END in one ignorable extension (the longest that fits)
+			best := ""
+			for _, e := range IgnoreExts {
+				if strings.HasSuffix(c, e) && len(e) > len(best) {
+					best = e
+				}
+			}
+			stem = strings.TrimSuffix(c, best)
+		}
 		for _, e := range IgnoreExts {
-			if strings.Contains(c, e) {
+			if strings.Contains(stem, e) {
 				return true
 			}
 		}
@@ -239,7 +260,7 @@ func (g *G) NewPath() string {
 		if p == ".goitignore" || strings.HasPrefix(p, ".goit") {
 			continue
 		}
-		if g.E.H.PathsEver[p] || !g.pathUsable(p) {
+		if g.E.H.PathsEver[p] || !g.pathUsable(p) || hasIgnorableExtInDir(p) {
 			continue
 		}
 		return p
@@ -325,7 +346,16 @@ func (g *G) Message(hostile bool) string {
 	case 5:
 		m = "ünï çödé: 日本語"
 	case 6:
-		m = plain.Draw(g.T, "m") + "\n" + strings.Repeat("x", g.Int(1, 3000, "long"))
+		// a long line: lengths around internal buffer sizes (4096, 8192) and arbitrary ones up to ~10 KiB
+		n := g.Int(1, 10000, "long")
+		if g.Bool("nearBoundary") {
+			n = g.Pick2([]int{4095, 4096, 4097, 8191, 8192, 8193, 4000, 5000}, "boundaryLen")
+		}
+		if g.Bool("longFirstLine") {
+			m = strings.Repeat("y", n)
+		} else {
+			m = plain.Draw(g.T, "m") + "\n" + strings.Repeat("x", n) + "\ntail"
+		}
 	default:
 		m = "commit: reset: moving to HEAD@{1}"
 	}
@@ -346,7 +376,7 @@ func (g *G) Email() string {
 }
 
 // BranchName draws from a small pool whose members are prefixes of each other.
-var branchPool = []string{"main", "a", "b", "a.b", "ab", "a-b", "dev", "b_1", "B", "main2", "ma", "z.9", ".wip", "b.", ".a", "_", "0"}
+var branchPool = []string{"main", "a", "b", "a.b", "ab", "a-b", "dev", "b_1", "B", "main2", "ma", "z.9", ".wip", "b.", ".a", "_", "0", "a.tmp", "main.tmp", "b.lock", "a~"}
 
 func (g *G) BranchName() string { return g.Pick(branchPool, "branch") }
 
